@@ -111,3 +111,54 @@ def chunks(seq, k):
     for i in range(k):
         out.append(seq[i * n // k:(i + 1) * n // k])
     return out
+
+
+# ---------------------------------------------------------------------------------------------
+# string frames (what the pipeline builds from parsed lines)
+# ---------------------------------------------------------------------------------------------
+ALPHABETS = {
+    'ids': lambda i: 'v%d' % i,
+    'digits': lambda i: str(i),                      # "10" < "9" lexicographically
+    'digits-pad': lambda i: '%s' % ('1' * (i % 7 + 1)) if i < 7 else str(i * 11),  # prefixes of one another
+    'unicode': lambda i: ['é', 'ß', '中', '😀', 'z', 'ａ', 'ı', 'Ω'][i % 8] * (i // 8 + 1),
+    'spacey': lambda i: [' ', 'a b', ' a', 'a ', 'a  b', '\t'][i % 6] + ('' if i < 6 else str(i)),
+    'with-empty': lambda i: '' if i == 0 else 'x%d' % i,
+    'punct': lambda i: [',', '"', "'", ';', '|', ':', '-', '&', '{}', 'AND'][i % 10] + ('' if i < 10 else str(i)),
+}
+
+
+def string_column(rng, nprng, n, card, alphabet=None, skew=False):
+    name = alphabet or rng.choice(sorted(ALPHABETS))
+    f = ALPHABETS[name]
+    card = max(1, min(card, n))
+    if skew:
+        idx = nprng.zipf(1.5, n) % card
+    else:
+        idx = nprng.integers(0, card, n)
+    return [f(int(i)) for i in idx], name
+
+
+def string_frame(rng, nprng, n, ncols, label='label', label_pos=None, alphabets=None, dependent=True, names=None):
+    """dict column -> list[str]; the label column sits at ``label_pos`` (default: random)."""
+    cols = list(names) if names else ['f%d' % i for i in range(ncols)]
+    pos = rng.randrange(ncols + 1) if label_pos is None else label_pos
+    cols.insert(pos, label)
+    data = {}
+    lab_card = rng.choice([2, 2, 3, 5])
+    lab_idx = nprng.integers(0, lab_card, n)
+    classes = {}
+    for c in cols:
+        if c == label:
+            data[c] = ['c%d' % i for i in lab_idx] if rng.random() < 0.7 else [str(int(i)) for i in lab_idx]
+            classes[c] = 'label'
+            continue
+        card = rng.choice([1, 2, 3, 5, 12, 40, max(2, n // 10), n])
+        col, an = string_column(rng, nprng, n, card, alphabet=rng.choice(alphabets) if alphabets else None, skew=rng.random() < 0.3)
+        if dependent and rng.random() < 0.5 and card > 1:
+            # make the column informative about the label: overwrite a share of rows with a label-determined value
+            f = ALPHABETS[an]
+            mask = nprng.random(n) < rng.choice([0.3, 0.6, 0.9])
+            col = [f(int(lab_idx[i]) % card) if mask[i] else col[i] for i in range(n)]
+        data[c] = col
+        classes[c] = an
+    return data, cols, classes
